@@ -1,43 +1,125 @@
-(* M7h: Model/BrokerClient.v extended with the one place where user code runs in the MIDDLE of a method of
-   _KafkaBrokerClient: the callback of a request that expects no reply fires inside _sendRequest
-   (brokerclient.py:375-380, d.callback(None)) while _sendQueued (brokerclient.py:382-388) is still iterating over its
-   snapshot of the request table.  Every other Deferred of the class fires in tail position (handleResponse: last
-   statement; cancel: after the canceller returned) or inside close()'s own loop (which pops before it fires), so a
-   re-entrant call from those callbacks equals the same call made as the next event.
+(* M7h: Model/BrokerClient.v extended with USER CODE THAT RUNS IN THE MIDDLE OF A METHOD of _KafkaBrokerClient.
 
-   New API event:
-     HMakeThen rid a    d = makeRequest(rid, <bytes>, expectResponse=False); d.addCallback(lambda _: a())
-                        with a = close()  or  the .cancel() of the Deferred of handle h
-   hooks : handle -> action, for the Deferreds that have such a callback and have not fired yet.
+   User callbacks/errbacks attached to the Deferred of makeRequest() may call back into the broker client
+   synchronously (cancel() of any request, makeRequest(), disconnect(), close()).  Where the Deferred fires in TAIL
+   position of a method the call is indistinguishable from the same call made as the next event:
+     - handleResponse: tReq.d.callback(response) is the last statement (brokerclient.py:361); further frames of the same
+       chunk are handled afterwards exactly as if they had arrived in a later chunk (C06_client_chunking);
+     - Deferred.cancel(): the canceller _cancelRequest returns, then Deferred.cancel() errbacks CancelledError;
+     - makeRequest on a closed client returns an already failed Deferred: callbacks added by the caller run after it
+       returned; makeRequest of a no-reply request on a live connection fires before the caller can add a callback.
+   (Checked on the real code by harness/props/brokerclient_lib.py reentrant_part, not proved.)
 
-   [guard] = true is the code as it is now (commit 7c12cf4, finding F-C10-1): _sendQueued sends a snapshot entry only if
-   `tReq.sent is None and self.requests.get(tReq.correlationId) is tReq`.  [guard] = false is the loop as it was before
-   (`if tReq.sent is None`), kept only for the refutation witness in Props/C10.v; for a detached request object that
-   variant is an approximation (the real old code raised KeyError at line 379 for a detached no-reply request).
+   In exactly TWO places a Deferred fires while a method is still looping over the request table:
+     (F) _sendQueued, brokerclient.py:382-388: _sendRequest fires d.callback(None) for a request that expects no reply
+         while the loop iterates over its snapshot of the table;
+     (C) close(), brokerclient.py:298-301: `while self.requests: popitem(True); if not cancelled: d.errback(reason)`.
+   For these the model takes the calls made by user code as PARAMETERS of the event, so the theorems quantify over
+   everything user code can do there:
+     IConnOk inter     the connect Deferred succeeds (cbConnect -> _sendQueued); when the Deferred of handle h fires
+                       with None inside the loop, the calls [assoc inter h] are made, in order
+     IClose inter      close(); when the Deferred of handle h is failed inside the loop, the calls [assoc inter h]
+   A call is cancel of handle h / makeRequest / disconnect / close.  Calls made by callbacks that fire as a consequence
+   of such a call (a cancel from an errback fires the cancelled Deferred's errback, ...) are in tail position of that
+   call, so they are simply the next elements of the same list.  A close() made from inside (F) has a loop (C) of its
+   own: [CCloseI inter0].  close() from inside (C) raises AssertionError (the client is closing) and loops nowhere.
 
-   A _RequestState object is identified by its handle (one object per Deferred); "the object tReq as it is now" is the
-   table entry with tReq's handle, if there is one ([live_entry]). *)
+   popitem(True) removes the LAST entry of the table as it is at that moment.  While the client is closing makeRequest
+   never adds an entry (it fails at once, brokerclient.py:222-227) and removal keeps the order, so the entries popped
+   are the entries of the table at the start of the loop, newest first, minus those removed meanwhile: the loop is
+   written as an iteration over that reversed snapshot which skips entries that are gone and reads the flags of the
+   live entry ([live_entry]: a _RequestState object is identified by the handle of its Deferred).
+
+   [guard] = true is _sendQueued as it is now (commit 7c12cf4, finding F-C10-1):
+   `if tReq.sent is None and self.requests.get(tReq.correlationId) is tReq`; [guard] = false is the loop before that
+   commit (`if tReq.sent is None`), kept only for the refutation witness in Props/C10.v - for a detached request
+   object it is an approximation (the real old code raised KeyError at line 379 for a detached no-reply request). *)
 From AV Require Import Base.Util Model.Framing Model.BrokerClient.
 
-Inductive haction := HClose | HCancel (h : nat).
-Definition hooks_t := list (nat * haction).
+Inductive call0 :=
+| CCancel (h : nat)                 (* the .cancel() of the Deferred of handle h *)
+| CMake (rid : Z) (expect : bool)   (* makeRequest(rid, .., expect) *)
+| CDisc                             (* disconnect() *)
+| CClose0.                          (* close() in whose loop no user code runs *)
+Definition inter0 := list (nat * list call0).
 
-Fixpoint hook_of (hk : hooks_t) (h : nat) : option haction :=
-  match hk with
-  | [] => None
-  | (h', a) :: r => if Nat.eqb h' h then Some a else hook_of r h
+Inductive call1 := C0 (c : call0) | CCloseI (i : inter0).
+Definition inter1 := list (nat * list call1).
+
+Fixpoint assoc {A} (l : list (nat * list A)) (h : nat) : list A :=
+  match l with
+  | [] => []
+  | (h', x) :: r => if Nat.eqb h' h then x else assoc r h
   end.
 
-Definition do_action (s : state) (a : haction) : state * list output :=
-  match a with
-  | HClose => step s EClose
-  | HCancel h => step s (ECancel h)
+Definition call0_step (s : state) (c : call0) : state * list output :=
+  match c with
+  | CCancel h => step s (ECancel h)
+  | CMake rid ex => step s (EMake rid ex)
+  | CDisc => step s EDisconnect
+  | CClose0 => step s EClose
+  end.
+
+Fixpoint run_calls0 (s : state) (cs : list call0) : state * list output :=
+  match cs with
+  | [] => (s, [])
+  | c :: r => let (s1, o1) := call0_step s c in
+              let (s2, o2) := run_calls0 s1 r in (s2, o1 ++ o2)
   end.
 
 Definition live_entry (s : state) (r : req) : option req :=
   find (fun x => Nat.eqb (r_h x) (r_h r)) (t_reqs (s_t s)).
 
-(* which request object the loop body sends for snapshot entry r, if any *)
+(* (C) the loop of close(), brokerclient.py:298-301 *)
+Fixpoint close_loop (inter : inter0) (s : state) (snap : list req) : state * list output :=
+  match snap with
+  | [] => (s, [])
+  | r :: rest =>
+      match live_entry s r with
+      | None => close_loop inter s rest                                     (* removed meanwhile *)
+      | Some r' =>
+          let t1 := t_with_reqs (s_t s) (del (r_id r') (t_reqs (s_t s))) in  (* popitem(True) *)
+          if r_cancelled r' then close_loop inter (with_t s t1) rest
+          else
+            let (t2, o1) := fire t1 (r_h r') FailClosed in                   (* tReq.d.errback(reason) *)
+            let (s3, o2) := run_calls0 (with_t s t2) (assoc inter (r_h r')) in
+            let (s4, o3) := close_loop inter s3 rest in (s4, o1 ++ o2 ++ o3)
+      end
+  end.
+
+(* close(), brokerclient.py:260-302; the part before the loop is copied from Model.BrokerClient.step
+   (Proofs/BrokerClientHook.v close_i_nil: with no user code in the loop this IS step s EClose) *)
+Definition close_i (inter : inter0) (s : state) : state * list output :=
+  match s_down s with
+  | DNone =>
+      let s0 := with_down s DPending in
+      let '(s1, o1) :=
+        if s_proto s0 then (s0, [OLose])
+        else match s_connector s0 with
+             | CNone => fire_down s0
+             | CAttempt => let (s', o') := fire_down (with_connector s0 CStale) in (s', OCancelAttempt :: o')
+             | CTimer => let (s', o') := fire_down (with_connector s0 CStale) in (s', OCancelTimer :: o')
+             | CStale => (s0, [])
+             end in
+      let (s2, o2) := close_loop inter s1 (rev (t_reqs (s_t s1))) in
+      (s2, o1 ++ o2)
+  | _ => (s, [ORaised 2])
+  end.
+
+Definition call1_step (s : state) (c : call1) : state * list output :=
+  match c with
+  | C0 c0 => call0_step s c0
+  | CCloseI i => close_i i s
+  end.
+
+Fixpoint run_calls1 (s : state) (cs : list call1) : state * list output :=
+  match cs with
+  | [] => (s, [])
+  | c :: r => let (s1, o1) := call1_step s c in
+              let (s2, o2) := run_calls1 s1 r in (s2, o1 ++ o2)
+  end.
+
+(* which request object the body of _sendQueued sends for snapshot entry r, if any *)
 Definition pick (guard : bool) (s : state) (r : req) : option req :=
   match live_entry s r with
   | Some r' => if r_sent r' then None else Some r'          (* tReq.sent is None, read from the live object *)
@@ -45,108 +127,131 @@ Definition pick (guard : bool) (s : state) (r : req) : option req :=
             else if r_sent r then None else Some r           (* old loop: the detached object is sent *)
   end.
 
-(* _sendRequest(tReq) including the user callback of a no-reply request, brokerclient.py:365-380 *)
-Definition send_one (hk : hooks_t) (s : state) (r : req) : state * list output :=
+(* _sendRequest(tReq) including the user callbacks of a no-reply request, brokerclient.py:365-380 *)
+Definition send_one (inter : inter1) (s : state) (r : req) : state * list output :=
   let (t1, o1) := send_request (s_t s) r in
   let s1 := with_t s t1 in
   if r_expect r then (s1, o1)
-  else match hook_of hk (r_h r) with
-       | Some a => let (s2, o2) := do_action s1 a in (s2, o1 ++ o2)   (* runs inside d.callback(None) *)
-       | None => (s1, o1)
-       end.
+  else let (s2, o2) := run_calls1 s1 (assoc inter (r_h r)) in (s2, o1 ++ o2).   (* inside d.callback(None) *)
 
-(* _sendQueued, brokerclient.py:382-388 *)
-Fixpoint send_each_h (guard : bool) (hk : hooks_t) (s : state) (snap : list req) : state * list output :=
+(* (F) _sendQueued, brokerclient.py:382-388 *)
+Fixpoint flush_loop (guard : bool) (inter : inter1) (s : state) (snap : list req) : state * list output :=
   match snap with
   | [] => (s, [])
   | r :: rest =>
       match pick guard s r with
-      | None => send_each_h guard hk s rest
-      | Some r' => let (s1, o1) := send_one hk s r' in
-                   let (s2, o2) := send_each_h guard hk s1 rest in (s2, o1 ++ o2)
+      | None => flush_loop guard inter s rest
+      | Some r' => let (s1, o1) := send_one inter s r' in
+                   let (s2, o2) := flush_loop guard inter s1 rest in (s2, o1 ++ o2)
       end
   end.
 
-Inductive hevent := HEv (e : event) | HMakeThen (rid : Z) (a : haction).
-Definition hstate := (state * hooks_t)%type.
+(* cbConnect, brokerclient.py:431-439 *)
+Definition connok_i (guard : bool) (inter : inter1) (s : state) : state * list output :=
+  match s_connector s with
+  | CAttempt =>
+      let s1 := with_rxbuf (with_proto (with_connector (with_failures s 0) CNone) true) [] in
+      match s_down s1 with
+      | DNone => flush_loop guard inter s1 (t_reqs (s_t s1))
+      | _ => (s1, [OLose])
+      end
+  | _ => (s, [])
+  end.
 
-Definition is_succ_none (h : nat) (o : output) : bool :=
-  match o with ODef h' SuccNone => Nat.eqb h' h | _ => false end.
+Inductive ievent := IEv (e : event) | IConnOk (i : inter1) | IClose (i : inter0).
 
-Definition hstep (guard : bool) (hs : hstate) (e : hevent) : hstate * list output :=
-  let (s, hk) := hs in
+Definition istep (guard : bool) (s : state) (e : ievent) : state * list output :=
   match e with
-  | HEv EConnOk =>                                                         (* cbConnect, 431-439 *)
-      match s_connector s with
-      | CAttempt =>
-          let s1 := with_rxbuf (with_proto (with_connector (with_failures s 0) CNone) true) [] in
-          match s_down s1 with
-          | DNone => let (s2, o) := send_each_h guard hk s1 (t_reqs (s_t s1)) in ((s2, hk), o)
-          | _ => ((s1, hk), [OLose])
-          end
-      | _ => ((s, hk), [])
-      end
-  | HEv e0 => let (s', o) := step s e0 in ((s', hk), o)
-  | HMakeThen rid a =>
-      let h := length (t_dlog (s_t s)) in
-      let (s1, o1) := step s (EMake rid false) in
-      if Nat.eqb (length (t_dlog (s_t s1))) (S h) then                     (* a Deferred was returned *)
-        if is_fired (s_t s1) h then
-          if existsb (is_succ_none h) o1                                   (* already fired with None: the callback runs at once *)
-          then let (s2, o2) := do_action s1 a in ((s2, hk), o1 ++ o2)
-          else ((s1, hk), o1)                                              (* already failed (client closed): never runs *)
-        else ((s1, (h, a) :: hk), o1)                                      (* queued: runs when the request is written *)
-      else ((s1, hk), o1)                                                  (* DuplicateRequestError *)
+  | IEv e0 => step s e0
+  | IConnOk i => connok_i guard i s
+  | IClose i => close_i i s
   end.
 
-Fixpoint hrun (guard : bool) (hs : hstate) (evs : list hevent) : hstate * list output :=
+Fixpoint irun (guard : bool) (s : state) (evs : list ievent) : state * list output :=
   match evs with
-  | [] => (hs, [])
-  | e :: r => let (hs1, o1) := hstep guard hs e in
-              let (hs2, o2) := hrun guard hs1 r in (hs2, o1 ++ o2)
+  | [] => (s, [])
+  | e :: r => let (s1, o1) := istep guard s e in
+              let (s2, o2) := irun guard s1 r in (s2, o1 ++ o2)
   end.
-
-Definition hinit : hstate := (init, []).
 
 (* ------------------------------------------------------------------------------------------------
    case line = <guard 0/1> then events: the codes of Model/BrokerClient.v plus
-     12 rid 1 0   HMakeThen rid HClose        12 rid 2 h   HMakeThen rid (HCancel h)
+     13 <inter1>   IConnOk          14 <inter0>   IClose
+     inter0 = n (h m <call0>*m)*n       call0 = 1 h | 2 rid ex | 3 | 4
+     inter1 = n (h m <call1>*m)*n       call1 = <call0> | 5 <inter0>
    trace: as Model/BrokerClient.v *)
-Fixpoint parse_hevents (fuel : nat) (l : list Z) : option (list hevent) :=
+Fixpoint parse_n {A} (p : list Z -> option (A * list Z)) (n : nat) (l : list Z) : option (list A * list Z) :=
+  match n with
+  | O => Some ([], l)
+  | S m => match p l with
+           | Some (a, r) => match parse_n p m r with Some (x, r2) => Some (a :: x, r2) | None => None end
+           | None => None
+           end
+  end.
+
+Definition parse_call0 (l : list Z) : option (call0 * list Z) :=
+  match l with
+  | 1 :: h :: r => if h <? 0 then None else Some (CCancel (Z.to_nat h), r)
+  | 2 :: rid :: ex :: r => Some (CMake rid (negb (ex =? 0)), r)
+  | 3 :: r => Some (CDisc, r)
+  | 4 :: r => Some (CClose0, r)
+  | _ => None
+  end.
+
+Definition parse_group {A} (p : list Z -> option (A * list Z)) (l : list Z) : option ((nat * list A) * list Z) :=
+  match l with
+  | h :: m :: r => if (h <? 0) || (m <? 0) then None
+                   else match parse_n p (Z.to_nat m) r with Some (cs, r2) => Some ((Z.to_nat h, cs), r2) | None => None end
+  | _ => None
+  end.
+
+Definition parse_inter {A} (p : list Z -> option (A * list Z)) (l : list Z) : option (list (nat * list A) * list Z) :=
+  match l with
+  | n :: r => if n <? 0 then None else parse_n (parse_group p) (Z.to_nat n) r
+  | _ => None
+  end.
+
+Definition parse_call1 (l : list Z) : option (call1 * list Z) :=
+  match l with
+  | 5 :: r => match parse_inter parse_call0 r with Some (i, r2) => Some (CCloseI i, r2) | None => None end
+  | _ => match parse_call0 l with Some (c, r) => Some (C0 c, r) | None => None end
+  end.
+
+Fixpoint parse_ievents (fuel : nat) (l : list Z) : option (list ievent) :=
   match fuel with
   | O => None
   | S f =>
-      let k := fun ev r => match parse_hevents f r with Some es => Some (ev :: es) | None => None end in
+      let k := fun ev r => match parse_ievents f r with Some es => Some (ev :: es) | None => None end in
       match l with
       | [] => Some []
-      | 1 :: rid :: ex :: r => k (HEv (EMake rid (negb (ex =? 0)))) r
-      | 2 :: h :: r => if h <? 0 then None else k (HEv (ECancel (Z.to_nat h))) r
-      | 3 :: r => k (HEv EConnOk) r
-      | 4 :: r => k (HEv EConnFail) r
-      | 5 :: r => k (HEv ELost) r
-      | 6 :: r => match take_lp r with Some (c, r2) => k (HEv (EData c)) r2 | None => None end
-      | 7 :: r => match take_lp r with Some (c, r2) => k (HEv (EFrame c)) r2 | None => None end
-      | 8 :: r => k (HEv EFire) r
-      | 9 :: r => k (HEv EClose) r
-      | 10 :: r => k (HEv EDisconnect) r
-      | 11 :: sm :: a :: r => k (HEv (EUpdate (negb (sm =? 0)) a)) r
-      | 12 :: rid :: 1 :: _ :: r => k (HMakeThen rid HClose) r
-      | 12 :: rid :: 2 :: h :: r => if h <? 0 then None else k (HMakeThen rid (HCancel (Z.to_nat h))) r
+      | 1 :: rid :: ex :: r => k (IEv (EMake rid (negb (ex =? 0)))) r
+      | 2 :: h :: r => if h <? 0 then None else k (IEv (ECancel (Z.to_nat h))) r
+      | 3 :: r => k (IEv EConnOk) r
+      | 4 :: r => k (IEv EConnFail) r
+      | 5 :: r => k (IEv ELost) r
+      | 6 :: r => match take_lp r with Some (c, r2) => k (IEv (EData c)) r2 | None => None end
+      | 7 :: r => match take_lp r with Some (c, r2) => k (IEv (EFrame c)) r2 | None => None end
+      | 8 :: r => k (IEv EFire) r
+      | 9 :: r => k (IEv EClose) r
+      | 10 :: r => k (IEv EDisconnect) r
+      | 11 :: sm :: a :: r => k (IEv (EUpdate (negb (sm =? 0)) a)) r
+      | 13 :: r => match parse_inter parse_call1 r with Some (i, r2) => k (IConnOk i) r2 | None => None end
+      | 14 :: r => match parse_inter parse_call0 r with Some (i, r2) => k (IClose i) r2 | None => None end
       | _ => None
       end
   end.
 
-Fixpoint hrun_enc (guard : bool) (hs : hstate) (evs : list hevent) : list Z :=
+Fixpoint irun_enc (guard : bool) (s : state) (evs : list ievent) : list Z :=
   match evs with
   | [] => []
-  | e :: r => let (hs1, o1) := hstep guard hs e in
-              0 :: (if s_proto (fst hs1) then 1 else 0) :: flat_map enc_out (canon_outs o1) ++ hrun_enc guard hs1 r
+  | e :: r => let (s1, o1) := istep guard s e in
+              0 :: (if s_proto s1 then 1 else 0) :: flat_map enc_out (canon_outs o1) ++ irun_enc guard s1 r
   end.
 
 Definition run_case (c : list Z) : list Z :=
   match c with
-  | g :: r => match parse_hevents (S (length r)) r with
-              | Some es => hrun_enc (negb (g =? 0)) hinit es
+  | g :: r => match parse_ievents (S (length r)) r with
+              | Some es => irun_enc (negb (g =? 0)) init es
               | None => [-99]
               end
   | [] => [-99]
